@@ -242,6 +242,13 @@ func OOVWords() []string { return oovWords }
 var multibyte = []string{"©", "—", "§", "é", "ü", "·", "‐", "中", "文", "語", "😀", "𝔘", "ß", "¤", "–", "‒"}
 var invalid = []string{"\xff", "\xc3", "\xe2\x82", "\xf0\x9f\x98", "\x80", "\xc0\xaf", "\xed\xa0\x80", "\x00"}
 
+// American / British spelling pairs used to respell corpus documents (the
+// library documents that it treats such variants as interchangeable).
+var britishSpellings = [][2]string{{"license", "licence"}, {"License", "Licence"}, {"organization", "organisation"}, {"authorized", "authorised"}, {"authorization", "authorisation"},
+	{"center", "centre"}, {"favor", "favour"}, {"fulfill", "fulfil"}, {"initialize", "initialise"}, {"labor", "labour"}, {"program", "programme"}, {"recognize", "recognise"},
+	{"utilization", "utilisation"}, {"while", "whilst"}, {"analyze", "analyse"}, {"artifact", "artefact"}, {"catalog", "catalogue"}, {"judgement", "judgment"},
+	{"practice", "practise"}, {"modeled", "modelled"}, {"organize", "organise"}, {"realize", "realise"}, {"maximize", "maximise"}, {"optimize", "optimise"}, {"offense", "offence"}, {"canceled", "cancelled"}}
+
 // Pool is the set of base texts inputs are built from.
 type Pool struct {
 	Scenarios []Scenario
@@ -256,7 +263,7 @@ type Input struct {
 
 // Gen draws one input. maxLen bounds its size (bytes, approximately).
 func (p *Pool) Gen(s *choice.Stream, maxLen int) Input {
-	kind := s.Pick([]int{5, 4, 3, 2, 2, 2, 1, 1, 3}, "input-kind")
+	kind := s.Pick([]int{5, 4, 3, 2, 2, 2, 1, 1, 3, 3, 3, 3}, "input-kind")
 	var desc string
 	var b []byte
 	switch kind {
@@ -354,6 +361,43 @@ func (p *Pool) Gen(s *choice.Stream, maxLen int) Input {
 		}
 		desc = fmt.Sprintf("multi(%d docs with copyright lines)", n)
 		b = []byte(sb.String())
+	case 9: // a corpus document verbatim, as the whole input
+		d := p.Docs[s.Draw(len(p.Docs), "doc")]
+		desc, b = "verbatim:"+d.Key(), append([]byte(nil), d.Data...)
+	case 10: // a corpus document cut into pieces with blocks of foreign words in the gaps
+		d := p.Docs[s.Draw(len(p.Docs), "doc")]
+		ws := strings.Fields(string(d.Data))
+		if len(ws) > 400 {
+			st := s.Draw(len(ws)-400, "frag-window")
+			ws = ws[st : st+400]
+		}
+		np := 2 + s.Draw(4, "frag-pieces")
+		var sb strings.Builder
+		pos := 0
+		for i := 0; i < np && pos < len(ws); i++ {
+			left := len(ws) - pos
+			n := left
+			if i < np-1 {
+				n = 1 + s.Draw(left, "frag-len")
+			}
+			sb.WriteString(strings.Join(ws[pos:pos+n], " "))
+			pos += n
+			sb.WriteString("\n" + OOV(s, 1+s.Draw(24, "frag-gap")) + "\n")
+		}
+		desc = fmt.Sprintf("fragmented(%d pieces):%s", np, d.Key())
+		b = []byte(sb.String())
+	case 11: // a corpus document in British spelling
+		d := p.Docs[s.Draw(len(p.Docs), "doc")]
+		txt := string(d.Data)
+		n := 0
+		for _, pr := range britishSpellings {
+			if strings.Contains(txt, pr[0]) && s.Draw(3, "respell?") != 0 {
+				txt = strings.ReplaceAll(txt, pr[0], pr[1])
+				n++
+			}
+		}
+		desc = fmt.Sprintf("respelled(%d words):%s", n, d.Key())
+		b = []byte(txt)
 	case 7: // hyphenated line ends and CRLF
 		sc := p.Scenarios[s.Draw(len(p.Scenarios), "scenario")]
 		txt := string(sc.Data)
